@@ -1182,7 +1182,10 @@ func ruleDupComplete(c *Ctx) []Obligation {
 			switch v := val.(type) {
 			case *ssa.Slice:
 				if v.Max != nil && v.High != nil && sameExpr(v.Max, v.High) {
-					okc, how = true, "clipped with a three-index slice (max == len)"
+					// it is this field's own slice that is clipped (not a sibling's stored under this name)
+					if _, sf, _ := loadedField(v.X); sf == f || sf == nil {
+						okc, how = true, "clipped with a three-index slice (max == len)"
+					}
 				}
 			case *ssa.MakeSlice, *ssa.MakeMap:
 				if _, isMap := f.Type().Underlying().(*types.Map); !isMap {
